@@ -32,6 +32,10 @@ func Registry() []*Spec {
 		what := "oj.Validator.validateBuffer"
 		extra := ""
 		pkg := "oj"
+		thoroughL := 2 // L = 3 was measured (and is registered) for the validator only: 231 k paths, 7.5 min
+		if fe == "Validator" {
+			thoroughL = 3
+		}
 		switch fe {
 		case "GenParser":
 			pkg = "gen"
@@ -42,7 +46,7 @@ func Registry() []*Spec {
 			what, extra = "oj.Parser.parseBuffer", "; number states also from prefixes of 20+ digits (text form of the accumulators); the value stack holds the 0..1 elements of the canonical prefix"
 		}
 		stepS := Spec{Name: "VerifStep_" + fe, Pkg: pkg,
-			Quick: map[string]int{"L": 2}, Thorough: map[string]int{"L": 3},
+			Quick: map[string]int{"L": 2}, Thorough: map[string]int{"L": thoroughL},
 			Covers: []string{"rejected", "stepped", "accepting-end"}, UnitDepth: 3,
 			Note: "one inductive step of " + what + ": from the canonical state of every reference configuration (35 automaton sub-states x container stacks of depth <= L+1, depth L+1 standing for 'or deeper' with an unconstrained bottom entry where the stack is a byte stack; dead fields nextMode / ri / rn / line / noff havocked) the real per-buffer function on every chunk of <= L symbolic bytes errs iff the RFC 8259 reference rejects, never panics, ends in the canonical state of the reference's next configuration (mode, nextMode, ri, container kinds), and the end-of-input call errs iff that configuration is not complete" + extra + "; by induction over reads: the reader entry point on inputs of ANY length and nesting depth delivered in reads of <= L bytes"}
 		for _, pa := range []struct {
